@@ -88,6 +88,17 @@ def run(chk):
             spec["g"] = (t, extra + ["k"])
             spec["h"] = ("not", ["g"])
             const_models.append((f"{t}-with-const{kc}-{len(extra)}", build(spec, outputs=["h"])))
+    # a parity gate over several constants in front of a gate that the folded value would control (n-ary xnor is NOT(parity)): a
+    # constant-propagation pre-pass has to fold it as the library evaluates it
+    for t in ("xor", "xnor"):
+        for arity in (2, 3, 4, 5):
+            for kc in ("0", "1"):
+                spec = {"a": ("input", []), "b": ("input", [])}
+                for i_ in range(arity):
+                    spec[f"k{i_}"] = (kc, [])
+                spec["p"] = (t, [f"k{i_}" for i_ in range(arity)])
+                spec.update({"g1": ("and", ["p", "a"]), "g2": ("or", ["p", "b"]), "g3": ("nand", ["g1", "b"]), "g4": ("nor", ["g2", "a"]), "h": ("xor", ["g3", "g4"])})
+                const_models.append((f"{t}-over-{arity}-const{kc}-in-front-of-controlled-gates", build(spec, outputs=["h", "g1", "g2"])))
     # (wide gates: an encoding may treat gates above some fan-in differently - 7 in the quick tier, 8 in the thorough one)
     wide_models = list(one_gate_circuits(max_arity=7 if chk.tier == "quick" else 8, types=["and", "nand", "or", "nor"]))
     wide_models = [(k, c) for k, c in wide_models if int(k[-1]) >= 4]
@@ -113,6 +124,9 @@ def run(chk):
     from ..semantic import reinserted
 
     fams += [(f"{k}@sinks-first", reinserted(c, "sinks-first")) for k, c in fams if (chk.tier == "thorough" or not k.startswith(("and", "or", "nand", "nor", "xor", "xnor", "t2::")))]
+    # ... and in orders that are neither drivers-first nor loads-first (nodes added first and wired later, netlists listing gates out of order)
+    fams += [(f"{k}@{mode_}", reinserted(c, mode_)) for mode_ in ("interleaved-a", "interleaved-b") for k, c in fams
+             if "@" not in k and len(c.nodes()) >= 6 and not k.startswith(("and", "or", "nand", "nor", "xor", "xnor", "t2::"))]
     n = 0
     from ..pkgenv import FullStackCaller
 
